@@ -189,6 +189,16 @@ def term (d : Nat) (st : St) : R :=
     | Tok.op s => if s = ['{'] || s = [':',':'] then .error (.outside 17) else .ok st
     | _ => .ok st
 
+/-- the tests that make a `(` a function call in compilePrecedence2: the previous token is a name (not
+return/case/throw/delete), a `]`, or a `)` that does not close a cast.  `cur` = the `(` and what follows. -/
+def isCallCtx (cpp : Bool) (pre cur : List Tok) : Bool :=
+  match pre with
+  | [] => false
+  | p :: pr =>
+    (p.isName && !(p = Tok.kw sReturn || p = Tok.kw sCase) && (!cpp || !(p = Tok.kw sThrow || p = Tok.kw sDelete)))
+    || p = Tok.rb
+    || (p = Tok.rp && !castBefore cpp pr cur)
+
 /-- the `while (tok)` loop of compilePrecedence2; `inner` = compileExpression -/
 def loop2 (M : Nat) (cpp : Bool) (inner : Nat → St → R) (d : Nat) (st : St) : R :=
   match st.inp with
@@ -235,13 +245,7 @@ def loop2 (M : Nat) (cpp : Bool) (inner : Nat → St → R) (d : Nat) (st : St) 
           | .error e => .error e
           | .ok st2 =>
             -- tok = tok2 (the parenthesis); function call?
-            let isCall : Bool :=
-              match st.pre with
-              | [] => false
-              | p :: pr =>
-                (p.isName && !(p = Tok.kw sReturn || p = Tok.kw sCase) && (!cpp || !(p = Tok.kw sThrow || p = Tok.kw sDelete)))
-                || p = Tok.rb
-                || (p = Tok.rp && !castBefore cpp pr st.inp)
+            let isCall : Bool := isCallCtx cpp st.pre st.inp
             let stk' :=
               if isCall then
                 (if oldSize < st2.stk.length then combine2 ['('] st.pos st2.stk else combine1 ['('] st.pos true st2.stk)
@@ -370,5 +374,94 @@ def PExpr.declOK : PExpr → Bool
 def endOK : List Tok → Bool
   | [] => true
   | t :: _ => t == Tok.rp || t == Tok.rb || t == Tok.op [';']
+
+/-! ### the ISO table and minimal parenthesisation -/
+
+/-- the operator table of ISO C++20 [expr.comma] … [expr.mptr.oper] (a superset of C17 6.5.5 – 6.5.17),
+lowest precedence first.  `assignTernary` = the right-associative level that also holds `?:`. -/
+def isoTable : List (List Str × Kind) := [
+  ([[',']], .left),
+  ([['='], ['+','='], ['-','='], ['*','='], ['/','='], ['%','='], ['<','<','='], ['>','>','='], ['&','='], ['^','='], ['|','=']], .assignTernary),
+  ([['|','|']], .left),
+  ([['&','&']], .left),
+  ([['|']], .left),
+  ([['^']], .left),
+  ([['&']], .left),
+  ([['=','='], ['!','=']], .left),
+  ([['<'], ['>'], ['<','='], ['>','=']], .left),
+  ([['<','=','>']], .left),
+  ([['<','<'], ['>','>']], .left),
+  ([['+'], ['-']], .left),
+  ([['*'], ['/'], ['%']], .left),
+  ([['.','*']], .left)]
+
+/-- spelling of a table entry as an ISO operator: cppcheck's `. *` (two tokens, also for `->*`) is `.*` -/
+def entrySpelling (e : Str × Guard) : Str :=
+  match e.2 with
+  | .dotStar => e.1 ++ ['*']
+  | _ => e.1
+
+def Ladder.toTable (L : Ladder) : List (List Str × Kind) :=
+  L.levels.map (fun lv => (lv.ops.map entrySpelling, lv.kind))
+
+def sameOps (a b : List Str) : Bool := a.all b.contains && b.all a.contains && a.length == b.length
+
+/-- same levels in the same order, each with the same operator set and the same associativity -/
+def tableEq : List (List Str × Kind) → List (List Str × Kind) → Bool
+  | [], [] => true
+  | x :: xs, y :: ys => sameOps x.1 y.1 && x.2 == y.2 && tableEq xs ys
+  | _, _ => false
+
+namespace PExpr
+
+/-- forget the parentheses -/
+def strip : PExpr → PExpr
+  | var s => var s
+  | num s => num s
+  | paren e => strip e
+  | bin op l r => bin op (strip l) (strip r)
+  | tern c t e => tern (strip c) (strip t) (strip e)
+  | pre op e => pre op (strip e)
+  | post op e => post op (strip e)
+  | cast ty k e => cast ty k (strip e)
+  | index a i => index (strip a) (strip i)
+  | member a m => member (strip a) m
+  | call0 f v => call0 f v
+  | call f v a => call f v (strip a)
+
+/-- a first-stage tree without parentheses all of whose operators are binary operators of the table -/
+def over (L : Ladder) : PExpr → Bool
+  | var _ => true
+  | num _ => true
+  | bin op l r =>
+    (match findLevel op L.levels with
+     | some (lv, _) => (match lookupOp op lv.ops with | some g => g.binary | none => false)
+     | none => false) && over L l && over L r
+  | tern c t e => (findTern L.levels).isSome && over L c && over L t && over L e
+  | _ => false
+
+/-- print with the fewest parentheses: an operand gets parentheses exactly when its operator does not belong to
+the level list `ls` its position admits -/
+def minParen (L : Ladder) : List Level → PExpr → PExpr
+  | _, var s => var s
+  | _, num s => num s
+  | ls, bin op l r =>
+    match findLevel op L.levels with
+    | none => bin op l r
+    | some (lv, below) =>
+      let body :=
+        match lv.kind with
+        | .left => bin op (minParen L (lv :: below) l) (minParen L below r)
+        | .assignTernary => bin op (minParen L below l) (minParen L (lv :: below) r)
+      if (findLevel op ls).isSome then body else paren body
+  | ls, tern c t e =>
+    match findTern L.levels with
+    | none => tern c t e
+    | some (lv, below) =>
+      let body := tern (minParen L below c) (minParen L L.levels t) (minParen L (lv :: below) e)
+      if (findTern ls).isSome then body else paren body
+  | _, e => e
+
+end PExpr
 
 end Cppcheck.AstLadder
